@@ -235,6 +235,18 @@ func runPart(c *Case, what string) part {
 	return p
 }
 
+// safeZeroThreshold calls the real zeroThreshold on g at index i (4 <= i, i+3 < len(g): everything the code is
+// entitled to read is there). A panic in it (it runs in this goroutine) is caught: the table entry is then
+// "no shift", and the crash of the real pipeline on the same data is what the case reports.
+func safeZeroThreshold(g []uint16, i int) (v int, ok bool) {
+	defer func() {
+		if e := recover(); e != nil {
+			v, ok = i, false
+		}
+	}()
+	return dastard.VerifZeroThreshold(g, i), true
+}
+
 func outcomeTerm(p *part, crashed bool) string {
 	if crashed {
 		return "OCrash"
@@ -312,7 +324,12 @@ func render(c *Case, pre, pa, pb *part, crashA, crashB bool) lib.Result {
 	var tab []int64
 	if c.ZT {
 		for j := 0; j+8 <= len(g); j++ {
-			tab = append(tab, int64(dastard.VerifZeroThreshold(g, j+4)-(j+4)))
+			v, ok := safeZeroThreshold(g, j+4)
+			if !ok {
+				tags["oracle-call-panicked"] = true // the real zeroThreshold indexed outside the window it is given
+				v = j + 4
+			}
+			tab = append(tab, int64(v-(j+4)))
 		}
 	}
 	lens64 := make([]int64, len(lensB))
